@@ -51,7 +51,7 @@ def refactors():
             continue
         m = json.load(open(mp))
         c = m.get("confirmed", {})
-        det = c.get("detection", "?")
+        det = c.get("detection", "?") if not m.get("superseded") else "superseded by a later repair of /repo (not run)"
         cnt[det] = cnt.get(det, 0) + 1
         rows.append(f"| {d} | {short(m.get('site', m.get('summary', '')), 70)} | {det} |")
     head = "Result on the current checks: " + ", ".join(f"{v} × {k}" for k, v in sorted(cnt.items())) + ".\n\n| refactoring | site | check of its property |\n|---|---|---|\n"
